@@ -18,7 +18,7 @@ let has_step (s : est) k =
 let handle line =
   match List.map String.trim (String.split_on_char '|' line) with
   | [scripts; lops; wprogs; sched] ->
-      let scripts = List.map (fun s -> List.map (fun c -> c = 'r') (chars (String.trim s))) (String.split_on_char ',' scripts) in
+      let scripts = List.map (fun s -> List.map (fun c -> n_of_int (match c with 'r' -> 1 | 'w' -> 2 | _ -> 0)) (chars (String.trim s))) (String.split_on_char ',' scripts) in
       let lops = List.map (fun w -> if w.[0] = 's' then ESched (nat_of_int (int_of_string (String.sub w 1 (String.length w - 1)))) else EDispatch) (words lops)
                  @ [EDispatch; EDispatch; EDispatch; EDispatch] in
       let wprogs = if wprogs = "" then [] else
